@@ -146,6 +146,14 @@ def probes(syn, key, val):
         elif out and canon(out) == canon(c[1]):
             return ('scope:property-yields-raw', dict(actual=out))
     yield 'property', key, {'context': {'name': '@@property'}}, prop_scope
+    # `+`-joined under a scope: each part resolves exactly as it does alone, whatever the order of the keys
+    other = 'm' if c[0] == 'prop' else '@kf'
+    scope = '@@property' if c[0] == 'prop' else '@@section'
+    if key != other:
+        a1 = run_probe(syn, key, {'context': {'name': scope}})
+        a2 = run_probe(syn, other, {'context': {'name': scope}})
+        yield 'scope-joined', key + '+' + other, {'context': {'name': scope}}, exact(a1 + '\n' + a2, 'scope:joined-parts-differ-from-alone')
+        yield 'scope-joined', other + '+' + key, {'context': {'name': scope}}, exact(a2 + '\n' + a1, 'scope:joined-parts-differ-from-alone')
 
 
 def run_probe(syn, abbr, extra):
